@@ -14,7 +14,7 @@ TOL = 1e-10
 
 def plan(tier):
     n = 3000 if tier == 'quick' else 120000
-    return dict(n_cases=n, shards=16, min_nontrivial=200 if tier == 'quick' else 5000,
+    return dict(suite_monitor=True, n_cases=n, shards=16, min_nontrivial=200 if tier == 'quick' else 5000,
                 min_hits={'read_stack': n // 2}, watchdog_s=1800 if tier == 'quick' else 7200,
                 rule='random stacks of 1..24 plies (angle mixture incl. near-0/90 and integers; per-ply '
                      'thickness over 3 decades; 3/6/9-entry materials; offsets within +-3t; uniform and per-ply '
